@@ -6,6 +6,9 @@ CHECKS = {
  'C04': dict(cat='exploration', tech='exhaustive enumeration of all ordered type pairs through the real c11_cast/promoted_type against an independent C11 table',
              text='Every ordered pair of (signedness, width) over the stated width range is put through the real functions; table, symmetry, determinism, purity and aliasing clauses are checked on each pair. The domain is finite and enumerated completely, so within the width range this is a decision, not a sample.',
              note='Trusted: the 12-line reference table in vf/props/c04.py (C11 6.3.1.8 with rank = width). Widths above 2048 are outside the claim.', ref='4 C04'),
+ 'C01': dict(cat='exploration', tech='bounded exhaustive enumeration of initial machine states for every accepted corpus part; emitted IL executed on an IL machine model and compared with a C11 reference evaluator of the behaviour text',
+             text='All 1583 accepted instructions (1655 parts) are compiled from a fresh forked state and executed by ILVM and by the C reference on the complete cross product of boundary domains of every operand bank, immediate, pc, npc, USR and CS (quick 32, thorough 1024 states per part); the 13 bundled sub-routines are additionally checked as stand-alone callees (8-bit lanes exhaustively). Acceptance is compared with a committed baseline so that a supported behaviour turning into a rejection is reported.',
+             note='Trusted: ILVM (model of the Rizin plugin + RzIL VM: register rules W/P/X, lazy ITE, call-by-name callees) and vf/ceval.py (cross-validated against gcc/clang on the sub-routine programs). Float operations are uninterpreted; HVX is not accepted by the compiler at all; 2^32..2^128 states are reduced to boundary domains.', ref='4 C01'),
  'C02': dict(cat='exploration', tech='bounded exhaustive enumeration of operator x type programs and operand values; emitted IL executed on an IL machine model and compared with a C11 reference evaluator (itself checked against gcc and clang)',
              text='Every operator x operand-type combination at depth 1 and the depth-2 compositions of the tier are compiled by the real compiler (each from a fresh forked state) and the emitted effect is executed by ILVM on the complete cross product of the operand domains (8-bit operands exhaustively, wider ones on boundary sets, shift counts 0..65); the observed int64_t result must equal the strict C reference. Disagreements are attributed to a known finding only if the IL equals the reference under exactly that deviation rule on every state.',
              note='Trusted: ILVM semantics of the RzIL core operators (DESIGN.md 3/E2; Rizin itself is not in the sandbox) and the reference evaluator vf/ceval.py, which the same run cross-validates against gcc -O0 -fwrapv and clang on every non-UB state. Wide operands are covered on boundary values only.', ref='4 C02'),
